@@ -165,11 +165,10 @@ theorem expandLoop_some {proj : Project} {rank : List Nat} (wf : WFacts proj ran
       · -- a class: the inherited members are tried
         rw [Names.expandLoop]
         simp only [hfn, hgo, hcl, hpe, Bool.not_false, Bool.and_true, decide_true, if_true]
-        cases hcf : Names.classFind e i y with
+        cases hcf : Names.classLookup e i y with
         | none => simp
-        | some c =>
+        | some inh =>
           simp only
-          generalize (path e.st c).getD [y] = inh
           by_cases hin : inh = [y]
           · simp [hin]
           · simp only [hin, if_false]
@@ -612,13 +611,10 @@ theorem visitAssign_step {proj : Project} {rank : List Nat} (wf : WFacts proj ra
     · simp only [hd, if_true]; exact hsame
     · simp only [hd]; exact hadd (by simpa using hd)
   · simp only [hm]
-    by_cases hma : maybeAttribute s ctx n = true
-    · simp only [hma, Bool.not_true, Bool.false_eq_true, if_false]
-      by_cases hd : dhas o.contents n = true
-      · simp only [hd, if_true]; exact hsame
-      · simp only [hd]; exact hadd (by simpa using hd)
-    · have hma' : maybeAttribute s ctx n = false := by simpa using hma
-      simp only [hma', Bool.not_false, if_true]; exact hsame
+    by_cases hd : dhas o.contents n = true
+    · simp only [hd, Bool.and_true, if_true, ite_self]; exact hsame
+    · have hd' : dhas o.contents n = false := by simpa using hd
+      simp only [hd', Bool.and_false, Bool.false_eq_true, if_false]; exact hadd hd'
 
 theorem enterClass_step {proj : Project} {rank : List Nat} (wf : WFacts proj rank) {s : St} (hI : PdInv proj s)
     {mod ctx : Nat} {S : Site} {full : List Stmt} (hc : Ctx proj s mod ctx S full) {n : Name} {bs : List Path}
